@@ -183,7 +183,9 @@ class Ops:
         return z3.Or(*out) if len(out) > 1 else out[0]
 
     def wrap_bool(self, c):
-        return c if isinstance(c, bool) else SV(c, "bool")
+        if isinstance(c, (bool, NdArr, SV)):
+            return c          # an elementwise comparison of arrays is an array
+        return SV(c, "bool")
 
     # ---------------------------------------------------------------- equality
     def eq(self, a, b):
